@@ -48,6 +48,7 @@ type Cfg struct {
 	Mode    string `json:"mode,omitempty"`  // world-specific mode
 	Strat   string `json:"strat,omitempty"` // interleaving strategy
 	SwitchP int    `json:"switchp,omitempty"`
+	NoNaN   bool   `json:"nonan,omitempty"` // float elements without NaN (hash-based kinds outside the C15 world)
 	Skip    int    `json:"skip,omitempty"`  // > 1: the harness observes the container only after about every Skip-th step
 	Pool    int    `json:"pool,omitempty"` // version of the special-value pools the element tables are drawn from
 }
@@ -71,6 +72,9 @@ type Plan struct {
 	Violation *Violation `json:"violation,omitempty"`
 	Minimised bool       `json:"minimised,omitempty"`
 	Note      string     `json:"note,omitempty"`
+	// Warmup: plans replayed (results ignored, garbage collection off) before this one: the runs that preceded it in
+	// the worker process, kept only when the failure depends on state the library leaves in the process
+	Warmup []*Plan `json:"warmup,omitempty"`
 }
 
 func (p *Plan) Clone() *Plan {
